@@ -48,3 +48,18 @@ package sourcebundle
 //@       && Join(Join(b.rootDir, b.remotePackageDirs[unbox(r, "sourceaddrs.RemoteSource").pkg]), unbox(r, "sourceaddrs.RemoteSource").subPath) == Abs(p)
 //@   ensures C18.reverse.outside: !AbsErr(p) && (!segUnder(Abs(p), b.rootDir) || Abs(p) == b.rootDir) ==> err != nil
 //@   ensures C18.reverse.noresult: err != nil ==> r == nil
+
+// The walk that prepares a fetched package directory (ignore rules, link and file-kind checks).
+//@ func packagePrepareWalkFn$1 -> (rerr)
+//@   sweep
+//@   replay bundlePrepare:
+//@   ghost $lastRemoved String = ""
+//@   requires pre.walk: segUnder(Clean(absPath), Clean(root)) && absPath != ""
+//@   frame C10.prepare.frame: segUnder(Clean(_p), Clean(root))
+//@   ensures C03,C10.prepare.excluded-is-removed: err == nil && (rerr == nil || rerr == filepath.SkipDir) && Rel(root, absPath) != "."
+//@       && (excl(ignoreRules, Rel(root, absPath)) || (modeDirBit(fileMode(info)) && domin(ignoreRules, Rel(root, absPath) + "/"))) ==> $lastRemoved == absPath
+//@   ensures C03,C10.prepare.kept-not-removed: err == nil && !excl(ignoreRules, Rel(root, absPath)) && !(modeDirBit(fileMode(info)) && excl(ignoreRules, Rel(root, absPath) + "/")) ==> $lastRemoved == ""
+//@   at-call os.RemoveAll#2 C03.prepare.dir-removal-dominating: domin(ignoreRules, Rel(root, absPath) + "/")
+//@   ensures C10.prepare.kept-is-safe: err == nil && rerr == nil && $lastRemoved == "" && Rel(root, absPath) != "."
+//@       ==> isLocalPath(Rel(RealPath(Abs(root)), RealPath(Join(RealPath(Abs(root)), Rel(root, absPath)))))
+//@   ensures C03,C10.prepare.skip-only-removed: err == nil && rerr == filepath.SkipDir ==> $lastRemoved == absPath
